@@ -3,6 +3,7 @@ package props
 import (
 	"fmt"
 	"math"
+	"math/big"
 
 	"github.com/willabides/rjson"
 
@@ -177,6 +178,28 @@ func c12(r *eng.Run) {
 	}
 	res := runE1(r, sp, 0, K, 400000)
 	e1Evidence(r, 0, K, res)
+	// boundary values of every integer type (the reader itself is C05's subject; here the
+	// Decode form must agree with it on them, with both initial targets)
+	nb := 0
+	for _, c := range []string{"2147483647", "2147483648", "4294967295", "4294967296", "9223372036854775807", "9223372036854775808", "18446744073709551615", "18446744073709551616", "0", "1e0", "1.0", "1e400", "1e-400", "0.1"} {
+		for d := int64(-2); d <= 2; d++ {
+			lit := c
+			if v, ok := new(big.Int).SetString(c, 10); ok {
+				lit = new(big.Int).Add(v, big.NewInt(d)).String()
+			} else if d != 0 {
+				continue
+			}
+			for _, form := range []string{"%s", "-%s", " %s ", "%s,", "-%sx", "%s.0", "%se0"} {
+				w := []byte(fmt.Sprintf(form, lit))
+				nb++
+				if bad, _, exp, got := checkDecode(w, nil); bad != "" {
+					r.Violation(eng.Replay{Engine: "num", Entry: "Decode*", Sig: bad + "/" + shortSig(w), InputB64: w, Expected: exp, Got: got})
+				}
+			}
+		}
+	}
+	r.Add("evaluations", nb)
+	r.Set("boundary_literals", nb)
 	coverageReport(r, "readNull", "readBool", "appendRemainderOfString")
 	r.Set("decode_cases_per_node", len(decodeCases)*2)
 	r.Set("rule", e1Rule+" On every node all ten Decode functions run with the target preset to the zero value and to a sentinel; oracle: the corresponding Read function + the null rule + 'target unchanged'.")
